@@ -1,10 +1,13 @@
 import CacheModel.DriverBackend
+import CacheModel.DriverMisc
 
 /- Driver entry: one request per line on stdin, one reply per line on stdout. `bad-op` for anything malformed. -/
 open Cache Cache.Drv
 
 structure DState where
   be : Std.HashMap String Inst := {}
+  iv : Std.HashMap String IvInst := {}
+  ix : Std.HashMap String IdxState := {}
 
 def handle (st : DState) (line : String) : DState × String :=
   let toks := (line.trimAscii.toString.splitOn " ").filter (· != "")
@@ -20,6 +23,28 @@ def handle (st : DState) (line : String) : DState × String :=
       match stepInst i op rest with
       | some (i', out) => ({ st with be := st.be.insert id i' }, out)
       | none => (st, "bad-op")
+  | "iv" :: "new" :: id :: rest =>
+    match kvInt (kvArgs rest) "skip" with
+    | some sk => ({ st with iv := st.iv.insert id { inv := { skipInterval := sk } } }, "ok")
+    | none => (st, "bad-op")
+  | ["iv", "call", id, ncb, t0, t1, obs] =>
+    match st.iv[id]?, parseNat ncb, parseInt t0, parseInt t1 with
+    | some i, some ncb, some t0, some t1 =>
+      let (i', out) := ivCall i ncb t0 t1 obs
+      ({ st with iv := st.iv.insert id i' }, out)
+    | _, _, _, _ => (st, "bad-op")
+  | ["ix", "new", id] => ({ st with ix := st.ix.insert id {} }, "ok")
+  | "ix" :: op :: id :: rest =>
+    match st.ix[id]? with
+    | none => (st, "bad-op no-such-instance")
+    | some s =>
+      match ixStep s op rest with
+      | some (s', out) => ({ st with ix := st.ix.insert id s' }, out)
+      | none => (st, "bad-op")
+  | ["gh", "xor", arg] =>
+    match ghXor arg with
+    | some out => (st, out)
+    | none => (st, "bad-op")
   | ["ping"] => (st, "pong")
   | _ => (st, "bad-op")
 
